@@ -52,7 +52,8 @@ META = dict(
               'interior masked entries); mask_corners True/False where the function has it; unfolded inputs and folded '
               'inputs (marginalize/scramble <=5-D, reorder all, filter <=3-D); commutation with project / fold on <=5-D '
               'shapes (all patterns <=3-D, 6 subsets / 5 permutations / 5 merge sets above); combine_pops / '
-              'combine_two_pops also on folded inputs (<=5-D / <=4-D).',
+              'combine_two_pops also on folded inputs (<=5-D / <=4-D); large sample size: shapes (258,2),(2,259),(130,2,2): fold, marginalize-then-fold, '
+              'reorder-then-fold and scramble_pop_ids (allele counts past 255 in one population).',
         thorough='quick shapes plus (4,3),(5,3),(2,4,3),(3,5,4),(3,4,2,3),(4,3,4,2),(3,2,3,2,2),(2,2,3,3,2),(3,2,4,2,3),'
                  '(2,2,3,2,3,3),(3,2,2,2,2,3),(3,2,2,3,2,4) (sample sizes up to 4); every subset / merge set / ordered pair '
                  'for all dimensions, every permutation <=5-D and 60+ for 6-D, folded inputs and commutation laws for all '
@@ -66,7 +67,7 @@ META = dict(
              'reorder_pops rejects a non-permutation)',
              'Misc.combine_pops on folded or >3-D spectra and idx values other than [0,1],[0,2],[1,2] (it calls exit())',
              'scramble_pop_ids drops pop_ids/extrap_x (not claimed either way)',
-             'extrap_x bookkeeping', 'more than 6 populations / sample sizes above 3'],
+             'extrap_x bookkeeping', 'more than 6 populations / sample sizes above 3 (except the large-sample-size units: 257 and 258 chromosomes in one population)'],
     stubs=['scipy.special.gammaln inside dadi.Numerics -> engine.esf.gammaln (exact ln of factorials; validated against '
            'scipy by esf.selftest)', 'numpy array constructors inside dadi.Numerics / Spectrum_mod / Misc -> object arrays',
            'Sym (+,-,*,/) numpy.ma.masked -> numpy.ma.masked (numpy.ma semantics for scalars; patched onto Sym._bin in the '
@@ -841,6 +842,19 @@ def units(tier, seed):
             add('commute-project-%s' % sn, body_commute_project(shape, csubs, cperms, csets),
                 dict(op='commute-project', shape=list(shape), over=csubs, perms=[list(p) for p in cperms], sets=csets),
                 8)
+    # ---- large sample sizes (per-entry allele-count arithmetic past 255 chromosomes in one population: an index grid
+    #      held in a narrow integer type wraps there; the object-array shim does not hide this because the counts come
+    #      from numpy.indices / shape arithmetic, not from shimmed constructors)
+    for shape in [(258, 2), (2, 259), (130, 2, 2)]:
+        sn = 'x'.join(map(str, shape))
+        nd = len(shape)
+        lsubs = [[i] for i in range(nd)]
+        lperm = [tuple(range(nd, 0, -1))]
+        add('commute-fold-%s-largeN' % sn, body_commute_fold(shape, lsubs, lperm, [], False),
+            dict(op='commute-fold', shape=list(shape), over=lsubs, perms=[list(q) for q in lperm], sets=[]),
+            int(np.prod(shape)) // 2)
+        add('scramble_pop_ids-%s-nolabels-unfolded-largeN' % sn, body_scramble(shape, False, False),
+            dict(op='scramble_pop_ids', shape=list(shape), labels=False), int(np.prod(shape)))
     # ---- the two defects found by this check (fixed in /repo: d4e102a, 6755447), kept as dedicated units
     for shape in [(2, 3), (2, 3, 4)]:
         sn = 'x'.join(map(str, shape))
